@@ -702,7 +702,9 @@ func cmdCheck(args []string) int {
 	var jobs []wjob
 	for i := 0; i < tc.Workers; i++ {
 		v := "plain"
-		if wi.Race && i%2 == 1 {
+		if wi.Race && i%2 == 1 && prop == "C11" {
+			// the race oracle belongs to C11 only; for C08/C12 a race report is not their
+			// business (and the testing package would fail the process on it)
 			v = "race"
 		}
 		jobs = append(jobs, wjob{v, i})
